@@ -6,7 +6,9 @@ import (
 	"crypto/sha512"
 	"encoding/hex"
 	"encoding/json"
+	"io"
 	"math/big"
+	"sync"
 	"math/rand"
 	"testing"
 
@@ -117,6 +119,9 @@ func concretize(c M, cseed int64) built {
 	aS, _ := edwards25519.NewScalar().SetBytesWithClamping(h[:32])
 	a := leInt(aS.Bytes()) // clamped scalar reduced mod L
 	msg := make([]byte, r.Intn(80))
+	if num("bigmsg") == 1 { // long messages keep concurrent calls inside the hash for a long time
+		msg = make([]byte, 1<<16)
+	}
 	r.Read(msg)
 	rb := make([]byte, 64)
 	r.Read(rb)
@@ -270,10 +275,78 @@ func runVerify(in M) (M, M) {
 	}
 	b := concretize(c, int64(vIntOf(in["cseed"])))
 	in["pk"], in["msg"], in["sig"] = vInts(b.pk), vInts(b.msg), vInts(b.sig)
+	if len(b.msg) > 512 { // long messages are determined by (class, cseed); only their length is logged
+		in["msg"], in["msglen"] = []int{}, len(b.msg)
+	}
 	var ok, std bool
-	p := vCatch(func() { ok = Verify(b.pk, b.msg, b.sig) })
+	p := vCatch(func() {
+		if in["par"] == true {
+			ok = Verify(append([]byte{}, b.pk...), b.msg, b.sig)
+			return
+		}
+		// sequential calls go through buffers that are overwritten in place from call to call:
+		// the verdict must depend on the bytes only, not on the history of the buffers
+		copy(pkBuf, b.pk)
+		sigBuf = append(sigBuf[:0], b.sig...)
+		msgBuf = append(msgBuf[:0], b.msg...)
+		ok = Verify(pkBuf, msgBuf, sigBuf)
+	})
 	vCatch(func() { std = stded.Verify(b.pk, b.msg, b.sig) })
 	return M{"ok": ok, "std": std, "panic": p}, b.facts
+}
+
+var (
+	pkBuf  = make(PublicKey, PublicKeySize)
+	sigBuf = make([]byte, 0, 128)
+	msgBuf = make([]byte, 0, 256)
+)
+
+type genReader struct {
+	data    []byte
+	pattern string
+	n       int
+}
+
+func (g *genReader) Read(p []byte) (int, error) {
+	if len(g.data) == 0 {
+		return 0, io.EOF
+	}
+	k := len(p)
+	switch g.pattern {
+	case "halves":
+		k = 16
+	case "onebyte":
+		k = 1
+	case "short": // only 20 bytes are ever available
+		if g.n >= 20 {
+			return 0, io.ErrUnexpectedEOF
+		}
+		k = 20 - g.n
+	}
+	if k > len(p) {
+		k = len(p)
+	}
+	if k > len(g.data) {
+		k = len(g.data)
+	}
+	copy(p, g.data[:k])
+	g.data = g.data[k:]
+	g.n += k
+	return k, nil
+}
+
+func runGenKey(in M) (M, M) {
+	seed := vBytes(in["seed"])
+	pat := in["pattern"].(string)
+	out := M{}
+	var pub PublicKey
+	var priv PrivateKey
+	var err error
+	out["panic"] = vCatch(func() { pub, priv, err = GenerateKey(&genReader{data: append([]byte{}, seed...), pattern: pat}) })
+	spub, spriv, serr := stded.GenerateKey(&genReader{data: append([]byte{}, seed...), pattern: pat})
+	out["ok"], out["std_ok"] = err == nil, serr == nil
+	out["pub"], out["priv"], out["std_pub"], out["std_priv"] = vInts(pub), vInts(priv), vInts(spub), vInts(spriv)
+	return out, M{}
 }
 
 var reuseBuf = make(PrivateKey, PrivateKeySize)
@@ -305,6 +378,16 @@ func runSign(in M) (M, M) {
 	if e1 != nil {
 		out["signer_err"] = e1.Error()
 	}
+	accepted := []int{}
+	for h := 1; h < 24; h++ {
+		var hs []byte
+		var he error
+		vCatch(func() { hs, he = priv.Sign(nil, msg, crypto.Hash(h)) })
+		if he == nil || hs != nil {
+			accepted = append(accepted, h)
+		}
+	}
+	out["signer_accepted_hashes"] = accepted
 	d := sha512.Sum512(msg)
 	s2, e2 := priv.Sign(nil, d[:], hashedOpts{})
 	out["signer_hashed_sig"], out["signer_hashed_err"] = vInts(s2), ""
@@ -353,6 +436,8 @@ func TestVerifDriver(t *testing.T) {
 				in["exp"] = ""
 			}
 			out, facts = runVerify(in)
+		} else if op == "ed.GenerateKey" {
+			out, facts = runGenKey(in)
 		} else {
 			out, facts = runSign(in)
 		}
@@ -366,9 +451,50 @@ func TestVerifDriver(t *testing.T) {
 		rec.w.Write(b)
 		rec.w.WriteByte('\n')
 	}
+	runPar := func(ins []M) {
+		// the same scenarios verified by 8 goroutines at once: every verdict must be the one the specification gives
+		type res struct{ in, out, facts M }
+		results := make([]res, len(ins))
+		var wg sync.WaitGroup
+		for g := 0; g < 8; g++ {
+			wg.Add(1)
+			go func(g int) {
+				defer wg.Done()
+				for rep := 0; rep < 3; rep++ {
+					for i := g; i < len(ins); i += 8 {
+						in := vNorm(ins[i])
+						in["par"] = true
+						o, f := runVerify(in)
+						if rep == 0 || o["ok"] != results[i].out["ok"] {
+							results[i] = res{in, o, f}
+						}
+					}
+				}
+			}(g)
+		}
+		wg.Wait()
+		for _, x := range results {
+			rec.i++
+			rec.count++
+			b, _ := json.Marshal(map[string]interface{}{"t": rec.t, "i": rec.i, "op": "ed.Verify", "in": vNorm(x.in), "out": x.out, "facts": x.facts})
+			rec.w.Write(b)
+			rec.w.WriteByte('\n')
+		}
+	}
 	if vMode() == "replay" {
+		var par []M
 		for _, v := range vReadInputs() {
+			if v.Op == "ed.Verify" && v.In["par"] == true {
+				par = append(par, v.In)
+				continue
+			}
 			emit(v.Op, v.In)
+		}
+		if len(par) > 0 {
+			for len(par) < 64 { // keep the goroutines busy also when only a few events are replayed
+				par = append(par, par[len(par)%8])
+			}
+			runPar(par)
 		}
 		return
 	}
@@ -386,6 +512,7 @@ func TestVerifDriver(t *testing.T) {
 		return c
 	}
 	if vEnvFocus() != "sign" {
+		var parIns []M
 		for k := 0; k < n; k++ {
 			cs := r.Intn(1 << 30)
 			emit("ed.Verify", M{"class": with(), "cseed": cs})
@@ -405,7 +532,15 @@ func TestVerifDriver(t *testing.T) {
 			}
 			emit("ed.Verify", M{"class": with("kind", "flipM"), "cseed": cs})
 			emit("ed.Verify", M{"class": with("kind", "random"), "cseed": cs})
+			parIns = append(parIns, M{"class": with("bigmsg", 1), "cseed": cs, "exp": ""}, M{"class": with("bigmsg", 1, "at", r.Intn(8), "rt", r.Intn(8)), "cseed": cs, "exp": ""},
+				M{"class": with("skind", "plusL", "j", 1), "cseed": cs, "exp": ""}, M{"class": with("msg", "changed"), "cseed": cs, "exp": ""},
+				M{"class": with("akind", "small", "at", r.Intn(8), "rkind", "small", "rt", r.Intn(8)), "cseed": cs, "exp": ""})
 		}
+		for len(parIns) < 64 {
+			parIns = append(parIns, parIns...)
+		}
+		rec.newTrace()
+		runPar(parIns)
 		return
 	}
 	// C07: seeds x messages around the SHA-512 block / padding boundaries of both hashes (32+len and 64+len)
@@ -438,6 +573,11 @@ func TestVerifDriver(t *testing.T) {
 		msg := make([]byte, l)
 		r.Read(msg)
 		emit("ed.Sign", M{"seed": vInts(seed), "msg": vInts(msg)})
+	}
+	for k := 0; k < 12; k++ {
+		seed := make([]byte, []int{32, 32, 32, 40, 20, 0}[k%6])
+		r.Read(seed)
+		emit("ed.GenerateKey", M{"seed": vInts(seed), "pattern": []string{"whole", "halves", "onebyte", "short"}[k%4]})
 	}
 	// reuse of one key buffer for different keys (aliasing hazards)
 	buf := make([]byte, 32)
